@@ -115,7 +115,16 @@ func (n *JoinNode) Delete(src int, d edge.DeleteGroupMessage) error {
 }
 
 func (n *JoinNode) Finish() error {
-	// No more points are coming signal all groups to finish up.
+	// No more points are coming: specific points that still wait for a match
+	// will not get one, send them on alone so that the groups can emit them.
+	for _, buf := range n.specificGroupsBuffer {
+		l := buf.Len
+		for i := 0; i < l; i++ {
+			n.sendSpecificPoint(buf.Peek(i))
+		}
+		buf.Dequeue(l)
+	}
+	// Signal all groups to finish up.
 	for _, group := range n.groups {
 		if err := group.Finish(); err != nil {
 			return err
